@@ -2214,7 +2214,7 @@ class CreateQueryBuilder:
         :return:
             CreateQueryBuilder.
         """
-        if self._primary_key:
+        if self._primary_key is not None:
             raise AttributeError("'Query' object already has attribute primary_key")
         self._primary_key = [
             (column if isinstance(column, Column) else Column(column)) for column in columns
